@@ -9,5 +9,5 @@ VERIF_RUNS=$RUNS ./check C18 --tier quick > /verif/target/try_patch.log 2>&1
 RC=$?
 git -C /repo checkout -- .
 git -C /repo clean -fdq regexml/src 2>/dev/null
-grep -E "VIOLATION|KNOWN-FINDING|HARNESS-ERROR|violation candidate|explored|reach|soak stage|WARNING|runs with at least" /verif/target/try_patch.log | head -20
+grep -E "VIOLATION|KNOWN-FINDING|HARNESS-ERROR|violation candidate|explored|reach|soak stage|dense stage|WARNING|runs with at least" /verif/target/try_patch.log | head -20
 echo "exit=$RC"
